@@ -203,6 +203,66 @@ CLAIMS["C02"] = ("other", "effect rules over the call-graph closure of every fun
                  "Disjointness of task slices, data-race freedom in general and bit-identity are not decided.",
                  "Trusts clang's AST; function-pointer edges are those of the repo's own tables.", "DESIGN.md 4/C02")
 
+CLAIMS["C14"] = ("other", "finite truth-table evaluation of the filter predicates, must-pass path rules on every enqueue/collide site, comparator "
+                 "antisymmetry by exhaustive order-type evaluation",
+                 "Decides: the bitmask filter (at each of its call sites) equals the documented contype/conaffinity rule over all 256 bit "
+                 "assignments; the body-pair filter's table matches the documented same-body/weld/parent-child rules incl. the "
+                 "FILTERPARENT guard; every path that enqueues a non-explicit pair passed the bitmask filter for that pair and the exclude "
+                 "lookup, explicit pairs use their own parameters, the disable-flag early return precedes any enqueue; sort comparators "
+                 "are antisymmetric. That SAP/BVH pruning never drops a close pair is geometric and not decided.",
+                 "Trusts clang's AST; NaN keys are outside the property's configurations (checked states).", "DESIGN.md 4/C14")
+CLAIMS["C16"] = ("other", "finite evaluation of the nearest-hit update predicate over order types (incl. NaN and the -1 sentinel), paired-write, "
+                 "initialisation, sibling-dispatch and must-write path rules",
+                 "Decides at all 16 update sites: update iff cand >= 0 and (best < 0 or cand < best); distance and geom id (and normal) are "
+                 "written together; -1/-1 initialisation on every path and the tracked distance is returned; mj_ray and the single-ray "
+                 "path dispatch every geom type to the same routine with the same filters; mj_multiRay writes dist[i] and geomid[i] on "
+                 "every path for every ray. Analytic intersection distances are not decided.", "Trusts clang's AST.", "DESIGN.md 4/C16")
+CLAIMS["C22"] = ("other", "abstract (3-valued comparator) evaluation of every mjSORT/mjPARTIAL_SORT expansion and of the insertion sorts; bounds by "
+                 "concrete evaluation of the index expressions",
+                 "Decides for every instantiation: merge takes the left element on ties and insertion shifts only on strictly greater "
+                 "(stability), run/merge bounds are clipped to n, tail copies have the lengths of the cursors they copy from, the result ends "
+                 "in the caller's array for both pass parities, comparators are antisymmetric. That the output is a sorted permutation "
+                 "(algorithmic correctness) is not decided.", "Trusts clang's AST (macro-expanded).", "DESIGN.md 4/C22")
+CLAIMS["C50"] = ("other", "shape rule on the geom producer, null-discipline and acquire/release typestate over all call sites, who-writes rules "
+                 "over all engine TUs",
+                 "Decides: acquireGeom returns NULL exactly under ngeom >= maxgeom and sets the status there; all 40 call sites test the "
+                 "result before use and never use it on the NULL branch; releases only of held pointers, at most once; scn->ngeom is written "
+                 "only by the validated release increment and resets; no store through scn->geoms outside a produced slot; light slots are "
+                 "bounded by the array extent. That the scene holds the right geoms with the simulated pose is not decided.",
+                 "Trusts clang's AST; plugin visualize callbacks are outside src/engine.", "DESIGN.md 4/C50")
+CLAIMS["C28"] = ("other", "table agreement (compiler stage table from the C++ AST vs engine switches vs size table), slice-custody who-writes rule, "
+                 "cutoff post-dominance and lazy-ensure dominance per case",
+                 "Decides for every mjtSensor enumerator: compiler stage == engine stage function holding its case, sensorSize has a case; "
+                 "compute functions write only through their slice parameter and every call site passes the slice of the same sensor index; "
+                 "literal element counts per case equal the size table; apply_cutoff follows every compute on all paths (incl. plugin "
+                 "sensors); every case reading lazily computed fields is dominated by its ensure-test. The measured quantities themselves "
+                 "are not decided.", "Trusts clang's AST.", "DESIGN.md 4/C28")
+CLAIMS["C18"] = ("other", "must-call/result-used rules on the flattened position stage (cross-TU), who-writes ownership of tree_asleep, sibling "
+                 "agreement of filtered/unfiltered integration arms, re-evaluation path rule",
+                 "Decides: every exported wake hook is called unguarded in the position stage and its result guards mj_updateSleep; "
+                 "d->tree_asleep is written only by the sleep module and the reset path; in mj_advance the filtered arm writes through the "
+                 "awake index lists and both arms write the same fields; when mj_sleep puts trees to sleep the re-evaluation and "
+                 "mj_updateSleep run before velocities are integrated. Cycle encoding and the wake conditions are not decided.",
+                 "Trusts clang's AST.", "DESIGN.md 4/C18")
+CLAIMS["C27"] = ("other", "must-pass path rules in mj_fwdActuation (ctrl copy/clamp, force and joint clamps, disabled-group skip) and index-dimension "
+                 "provenance over 187 index sites",
+                 "Decides: d->ctrl is read only into the local copy, which is clamped (under !CLAMPCTRL-disabled) and bad-value-scanned "
+                 "before any use; forcerange clamp precedes the moment product, joint actfrcrange clamp precedes return; every write of an "
+                 "actuator force happens where the actuator is known enabled (or preserves zero); every index into nu/nout/na arrays comes "
+                 "from the matching address array. Gain/bias formulas are not decided.", "Trusts clang's AST and X-macro dimensions.",
+                 "DESIGN.md 4/C27")
+CLAIMS["C25"] = ("other", "save/restore typestate on all paths of the FD routines (dirty components from engine mod sets), sibling-enumerator and "
+                 "sibling-guard rules between forward actuation and its analytic derivative",
+                 "Decides: every state component a finite-difference routine perturbs (incl. what a stepping call dirties) is restored on "
+                 "all paths before the next perturbation and before exit; every gain/bias enumerator whose forward computation depends on "
+                 "actuator velocity is handled by mjd_actuator_vel, and the derivative uses the control under the same clamp guard as the "
+                 "forward pass. Numerical agreement with finite differences is not decided.", "Trusts clang's AST.", "DESIGN.md 4/C25")
+CLAIMS["C21"] = ("other", "who-may-call rule over the ASTs of 37 C and 24 C++ translation units plus header probe; all-paths rule on mju_malloc",
+                 "Decides: raw heap allocators are referenced only inside the hookable choke point (mju_malloc's static helper); every path "
+                 "of mju_malloc that would return NULL for a positive size goes through mju_error first (user-hook and default paths). "
+                 "Leaks/double frees under fault sequences and C++ `new` are not decided; call sites rely on the allocator's contract "
+                 "(assumption).", "Trusts clang's AST; the _WIN32 branch is not in this host's AST.", "DESIGN.md 4/C21")
+
 NOT_APPLICABLE = {
     "C06": "numerical identities of M, LTDL and RNE over real-valued runtime data; no clause is visible in code shape",
     "C07": "'J equals the derivative of position' and proper-rotation claims are numerical; joint-type exhaustiveness is decided under C05",
